@@ -197,9 +197,10 @@ def run(tier, replay=None):
              'hist_cap_quick': 800},
             {'name': 'generator-steps', 'programs': [fam_gensteps(2 if quick else 3)], 'hist_programs': [fam_gensteps(2 if quick else 3)],
              'hist_cap_quick': 600},
-            {'name': 'calls', 'programs': [fam_calls(2 if quick else 3)], 'hist_programs': [fam_calls(2 if quick else 3)],
+            # (three external operations make tens of millions of states for the call families: two in both tiers)
+            {'name': 'calls', 'programs': [fam_calls(2)], 'hist_programs': [fam_calls(2)],
              'hist_cap_quick': 300},
-            {'name': 'call-then-raise', 'programs': [fam_callraise(2 if quick else 3)], 'hist_programs': [fam_callraise(2 if quick else 3)],
+            {'name': 'call-then-raise', 'programs': [fam_callraise(2)], 'hist_programs': [fam_callraise(2)],
              'hist_cap_quick': 300},
         ],
         'teeth': [{'name': 'tree/CancelLeak', 'programs': [fam_tree(2)], 'variants': {'CancelLeak': True},
